@@ -41,6 +41,9 @@ def cmdAt (s : String) (k : Nat) : CmdOut :=
 def parseCw : String → Option CwOut
   | "o" => some .ok | "f" => some .flushFailed | "h" => some .hsFailed | _ => none
 
+/-- the names `ipaddress.ip_address` accepts, as a list -/
+def ipPred (ips : List Bytes) : Str → Bool := fun n => ips.contains n
+
 def b01 (x : Bool) : String := if x then "1" else "0"
 
 def hexList (l : List Bytes) : String := if l.isEmpty then "-" else ",".intercalate (l.map hex)
@@ -99,42 +102,43 @@ def orcLoop (cfg : Cfg) (answers : List (Option Bool)) (env : Env) (host : Str) 
       orcLoop cfg answers env host maxSend n cmds.tail r.2.fs
 
 /-- `tls orc <cakey|None> <cacert|None> <signkey|None> <dir|None> <cafile|None> <insecure> <openssl>
-       <answers> <host> <sit> <subject> <fs> <cmds> <cw> <serial> <maxSend> <n>` (n CONNECTs, joined by ` || `; `cmds` = per-CONNECT outcome strings joined by `/`)
-    `tls gen <cakey> <cacert> <signkey> <dir> <openssl> <host> <subject> <fs> <cmds> <serial>`
+       <answers> <host> <sit> <subject> <fs> <cmds> <cw> <serial> <maxSend> <n> <ips>` (n CONNECTs, joined by ` || `; `cmds` = per-CONNECT outcome strings joined by `/`)
+    `tls gen <cakey> <cacert> <signkey> <dir> <openssl> <host> <subject> <fs> <cmds> <serial> <ips>`
     `tls chain <enabled 0|1> <answers>`
     `tls swrap <hostname|None> <cafile|None> <verifyNone 0|1>`
-    `tls ext <alt> <eku|None>` / `tls cfg <alt> <eku|None>`
-    `tls pub <openssl> <pub> <key> <pw> <subject> <alt> <eku|None> <days> <tmp>`
+    `tls ext <ips> <alt> <eku|None>` / `tls cfg <ips> <alt> <eku|None>`  (`ips` = the names ipaddress accepts)
+    `tls pub <ips> <openssl> <pub> <key> <pw> <subject> <alt> <eku|None> <days> <tmp>`
     `tls csr <openssl> <csr> <key> <pw> <crt>`
-    `tls sign <openssl> <csr> <crt> <cakey> <capw> <cacrt> <serial> <alt> <eku|None> <days> <tmp>`
+    `tls sign <ips> <openssl> <csr> <crt> <cakey> <capw> <cacrt> <serial> <alt> <eku|None> <days> <tmp>`
     `tls path <dir> <host>` -/
 def drv (args : List String) : String :=
   match args with
   | ["orc", cakey, cacert, signkey, dir, cafile, insecure, openssl, answers, host, sit, subject, fs, cmds, cw,
-     serial, maxSend, n] =>
+     serial, maxSend, n, ips] =>
     match optHex cakey, optHex cacert, optHex signkey, optHex dir, optHex cafile, unhex openssl,
           parseAnswers answers, unhex host, parseSit sit, parseSubject subject, parseList fs, parseCw cw,
-          unhex serial, maxSend.toNat?, n.toNat? with
+          unhex serial, maxSend.toNat?, n.toNat?, parseList ips with
     | some cakey, some cacert, some signkey, some dir, some cafile, some openssl, some answers, some host,
-      some sit, some subject, some fs, some cw, some serial, some maxSend, some n =>
+      some sit, some subject, some fs, some cw, some serial, some maxSend, some n, some ips =>
       let cfg : Cfg := { caKeyFile := cakey, caCertFile := cacert, caSigningKeyFile := signkey, caCertDir := dir,
                          caFile := cafile, insecure := insecure == "1", openssl := openssl }
       let env : Env := { handshake := refHandshake sit, subject := subject, fs := fs, cmd := cmdAt cmds,
-                         tmp := tmpName, serial := serial, clientWrap := cw }
+                         tmp := tmpName, serial := serial, clientWrap := cw, isIp := ipPred ips }
       " || ".intercalate (orcLoop cfg answers env host maxSend n (cmds.splitOn "/") fs)
-    | _, _, _, _, _, _, _, _, _, _, _, _, _, _, _ => "bad-op"
-  | ["gen", cakey, cacert, signkey, dir, openssl, host, subject, fs, cmds, serial] =>
+    | _, _, _, _, _, _, _, _, _, _, _, _, _, _, _, _ => "bad-op"
+  | ["gen", cakey, cacert, signkey, dir, openssl, host, subject, fs, cmds, serial, ips] =>
     match optHex cakey, optHex cacert, optHex signkey, optHex dir, unhex openssl, unhex host,
-          parseSubject subject, parseList fs, unhex serial with
-    | some cakey, some cacert, some signkey, some dir, some openssl, some host, some subject, some fs, some serial =>
+          parseSubject subject, parseList fs, unhex serial, parseList ips with
+    | some cakey, some cacert, some signkey, some dir, some openssl, some host, some subject, some fs, some serial,
+      some ips =>
       let cfg : Cfg := { caKeyFile := cakey, caCertFile := cacert, caSigningKeyFile := signkey, caCertDir := dir,
                          caFile := none, insecure := false, openssl := openssl }
       let env : Env := { handshake := fun _ => .ok, subject := subject, fs := fs, cmd := cmdAt cmds,
-                         tmp := tmpName, serial := serial, clientWrap := .ok }
+                         tmp := tmpName, serial := serial, clientWrap := .ok, isIp := ipPred ips }
       match generateUpstreamCertificate cfg env host with
       | none => "exc httpProtocol"
       | some (effs, _, e) => s!"{effsStr effs} | {genEndStr e} {hex (certFilePath (dir.getD []) host)}"
-    | _, _, _, _, _, _, _, _, _ => "bad-op"
+    | _, _, _, _, _, _, _, _, _, _ => "bad-op"
   | ["chain", en, answers] =>
     match parseAnswers answers with
     | some answers =>
@@ -151,30 +155,30 @@ def drv (args : List String) : String :=
       let p := serverWrapParams h ca (vn == "1")
       s!"sni={hexOpt p.serverHostname} ca={hexOpt p.caFile} none={b01 p.verifyNone} chk={b01 p.checkHostname}"
     | _, _ => "bad-op"
-  | ["ext", alt, eku] =>
-    match parseAlt alt, optHex eku with
-    | some alt, some eku => s!"ok {hex (extConfig alt eku)}"
-    | _, _ => "bad-op"
-  | ["cfg", alt, eku] =>
-    match parseAlt alt, optHex eku with
-    | some alt, some eku => s!"ok {b01 (hasExtension alt eku)} {hex (sslConfig alt eku)}"
-    | _, _ => "bad-op"
-  | ["pub", openssl, pub, key, pw, subject, alt, eku, days, tmp] =>
-    match unhex openssl, unhex pub, unhex key, unhex pw, unhex subject, parseAlt alt, optHex eku, days.toNat?,
-          unhex tmp with
-    | some o, some pub, some key, some pw, some subj, some alt, some eku, some days, some tmp =>
-      callStr (genPublicKey o pub key pw subj alt eku days tmp)
-    | _, _, _, _, _, _, _, _, _ => "bad-op"
+  | ["ext", ips, alt, eku] =>
+    match parseList ips, parseAlt alt, optHex eku with
+    | some ips, some alt, some eku => s!"ok {hex (extConfig (ipPred ips) alt eku)}"
+    | _, _, _ => "bad-op"
+  | ["cfg", ips, alt, eku] =>
+    match parseList ips, parseAlt alt, optHex eku with
+    | some ips, some alt, some eku => s!"ok {b01 (hasExtension alt eku)} {hex (sslConfig (ipPred ips) alt eku)}"
+    | _, _, _ => "bad-op"
+  | ["pub", ips, openssl, pub, key, pw, subject, alt, eku, days, tmp] =>
+    match parseList ips, unhex openssl, unhex pub, unhex key, unhex pw, unhex subject, parseAlt alt, optHex eku,
+          days.toNat?, unhex tmp with
+    | some ips, some o, some pub, some key, some pw, some subj, some alt, some eku, some days, some tmp =>
+      callStr (genPublicKey (ipPred ips) o pub key pw subj alt eku days tmp)
+    | _, _, _, _, _, _, _, _, _, _ => "bad-op"
   | ["csr", openssl, csr, key, pw, crt] =>
     match unhex openssl, unhex csr, unhex key, unhex pw, unhex crt with
     | some o, some csr, some key, some pw, some crt => callStr (genCsr o csr key pw crt)
     | _, _, _, _, _ => "bad-op"
-  | ["sign", openssl, csr, crt, cakey, capw, cacrt, serial, alt, eku, days, tmp] =>
-    match unhex openssl, unhex csr, unhex crt, unhex cakey, unhex capw, unhex cacrt, unhex serial, parseAlt alt,
-          optHex eku, days.toNat?, unhex tmp with
-    | some o, some csr, some crt, some cakey, some capw, some cacrt, some serial, some alt, some eku, some days,
-      some tmp => callStr (signCsr o csr crt cakey capw cacrt serial alt eku days tmp)
-    | _, _, _, _, _, _, _, _, _, _, _ => "bad-op"
+  | ["sign", ips, openssl, csr, crt, cakey, capw, cacrt, serial, alt, eku, days, tmp] =>
+    match parseList ips, unhex openssl, unhex csr, unhex crt, unhex cakey, unhex capw, unhex cacrt, unhex serial,
+          parseAlt alt, optHex eku, days.toNat?, unhex tmp with
+    | some ips, some o, some csr, some crt, some cakey, some capw, some cacrt, some serial, some alt, some eku,
+      some days, some tmp => callStr (signCsr (ipPred ips) o csr crt cakey capw cacrt serial alt eku days tmp)
+    | _, _, _, _, _, _, _, _, _, _, _, _ => "bad-op"
   | ["path", dir, host] =>
     match unhex dir, unhex host with
     | some d, some h => s!"ok {hex (certFilePath d h)}"
